@@ -271,8 +271,8 @@ pub fn run(ctx: &Ctx) {
     ctx.rule("states: zoo problems (Z2/Z3 share parameters between functions and have two parameters per function) with 1..7 columns, six weight classes, f32/f64, four flavours, alpha 0.4x..2.5x around the generating values; every Jacobian column block is compared with -(I-QQ^T)·W·D_k·c_s (Q from the oracle's Householder QR) and must be orthogonal to range(W·Phi); each derivative call in turn is made to fail and must yield no Jacobian. gradient: 2J^Tr against Richardson central differences of |r|^2 (f64, kappa<=1e4). fit-exchanges: every Jacobian handed to the optimizer. Only states with numerically full column rank (kappa <= 1e8 / 1e3 for f32) are in the property's domain. non-trivial = non-zero Jacobian and (S>1 or non-constant weights)");
     ctx.assume("reference mismatches explained by the measured reconstruction error of the dependency's SVD are attributed to KF-1");
     let t = ctx.tier;
-    let b = t.pick(15.0, 150.0);
-    ctx.run_cases("states", t.pick(10000, 50000), b, |r, c, o| if c % 3 == 0 { states_case::<f32>(r, c, o) } else { states_case::<f64>(r, c, o) });
-    ctx.run_cases("gradient", t.pick(2000, 10000), b, gradient_case);
-    ctx.run_cases("fit-exchanges", t.pick(1500, 8000), b, |r, c, o| if c % 4 == 0 { fit_case::<f32>(r, c, o) } else { fit_case::<f64>(r, c, o) });
+    let b = t.pick(30.0, 900.0);
+    ctx.run_cases("states", t.pick(10000, 400000), b, |r, c, o| if c % 3 == 0 { states_case::<f32>(r, c, o) } else { states_case::<f64>(r, c, o) });
+    ctx.run_cases("gradient", t.pick(2000, 80000), b, gradient_case);
+    ctx.run_cases("fit-exchanges", t.pick(1500, 64000), b, |r, c, o| if c % 4 == 0 { fit_case::<f32>(r, c, o) } else { fit_case::<f64>(r, c, o) });
 }
